@@ -4114,6 +4114,10 @@ class Wallet(object):
         if fee is False:
             transaction.change = 0
             transaction.fee = int(amount_total_input - amount_total_output)
+            if transaction.fee < 0:
+                raise WalletError("Total amount of outputs is greater then total amount of inputs")
+            # Fee is the remainder of the specified inputs: check the fee limits below with the real fee per kB
+            transaction.fee_per_kb = None
         else:
             transaction.change = int(amount_total_input - (amount_total_output + transaction.fee))
 
